@@ -105,17 +105,29 @@ pub struct StoreOp {
     schema: bool,
     arg: Value,
     pre: Value,
+    /// the map after the strip / install stage and the set handed to `repair_tc`
+    mid: Value,
+    touched: Value,
     done: bool,
 }
 
 impl StoreOp {
     pub fn new(op: &'static str, mode: impl std::fmt::Debug, schema: bool, arg: Value, pre: Value) -> Self {
-        Self { op, mode: format!("{mode:?}"), schema, arg, pre, done: false }
+        Self { op, mode: format!("{mode:?}"), schema, arg, pre, mid: Value::Null, touched: Value::Null, done: false }
+    }
+    /// the linearization point between the two stages of an incremental update: stale edges are
+    /// stripped and new records installed, `touched` is about to be repaired
+    pub fn before_repair(&mut self, map: &HashMap<EntityUID, Arc<Entity>>, touched: &std::collections::HashSet<EntityUID>) {
+        if enabled() {
+            self.mid = project_entities(map);
+            self.touched = json!(touched.iter().map(ToString::to_string).collect::<BTreeSet<_>>());
+        }
     }
     pub fn ok(&mut self, post: Value) {
         self.done = true;
         emit(json!({"ev": "EsOp", "src": "hook", "op": self.op, "mode": self.mode, "schema": self.schema, "arg": self.arg,
-                    "res": ["ok"], "pre": self.pre, "post": post, "isAnc": [], "in": [], "scopeIn": []}));
+                    "res": ["ok"], "pre": self.pre, "post": post, "isAnc": [], "in": [], "scopeIn": [],
+                    "mid": self.mid, "touched": self.touched}));
     }
 }
 
@@ -123,7 +135,8 @@ impl Drop for StoreOp {
     fn drop(&mut self) {
         if !self.done {
             emit(json!({"ev": "EsOp", "src": "hook", "op": self.op, "mode": self.mode, "schema": self.schema, "arg": self.arg,
-                        "res": ["err", "any"], "pre": self.pre, "post": self.pre, "isAnc": [], "in": [], "scopeIn": []}));
+                        "res": ["err", "any"], "pre": self.pre, "post": self.pre, "isAnc": [], "in": [], "scopeIn": [],
+                        "mid": self.mid, "touched": self.touched}));
         }
     }
 }
